@@ -105,7 +105,7 @@ Definition DocDeps (dir : list str) (v : value) (ids : list ident) : Prop :=
     NoDup ids.
 
 Definition Primitive (v : value) : Prop :=
-  match v with VStr _ | VBool _ | VInt _ | VFloat _ _ => True | _ => False end.
+  match v with VStr _ | VBool _ | VInt _ | VFloat _ _ | VFloatX _ => True | _ => False end.
 
 Definition DocArgs (v : value) : Prop := exists l, v = VList l /\ Forall Primitive l.
 Definition DocOptions (v : value) : Prop :=
